@@ -99,6 +99,33 @@ def build(case):
     nodes, order = case["nodes"], case["order"]
     if case.get("build", "source") == "source":
         return Program.from_source(source_text(nodes, order), libraries=LIBS)
+    if case.get("build") == "api_shared_lists":
+        # a caller-owned template: the very same list objects are handed to two programs; the first one is run to
+        # completion before the second (the one under test) is used
+        shared = {}
+        progs = []
+        for offset in (1000, 0):
+            prog = Program(libraries=LIBS)
+            for i in order:
+                n = nodes[i]
+                if n.get("src"):
+                    prog.add_command(prog.find_command_class("Src"), name(i), {"V": n["V"] + offset})
+                    continue
+                if i not in shared:
+                    args = {}
+                    for k in ("A", "B", "C"):
+                        if n.get(k) is not None:
+                            args[k] = name(n[k])
+                    if n.get("L") is not None:
+                        args["L"] = [name(c) for c in n["L"]]
+                    if n.get("N") is not None:
+                        args["N"] = [[name(c) for c in inner] for inner in n["N"]]
+                    shared[i] = args
+                prog.add_command(prog.find_command_class("Mute" if n.get("mute") else "Node"), name(i), dict(shared[i]))
+            progs.append(prog)
+        progs[0].run()
+        vlog.reset()
+        return progs[1]
     prog = Program(libraries=LIBS)
     by_object = case.get("build") == "api_objects"
     if by_object:
@@ -278,6 +305,7 @@ def small_dags(ctx):
                             yield {"nodes": vnodes, "order": list(order), "build": "source" if si == 0 else "api", "steps": steps}
                     if vi == 0:
                         yield {"nodes": vnodes, "order": list(range(n)), "build": "api_objects", "steps": scripts[1]}
+                        yield {"nodes": vnodes, "order": list(range(n)), "build": "api_shared_lists", "steps": scripts[0]}
 
 
 @st.composite
@@ -307,7 +335,7 @@ def dag_cases(draw):
                           min_size=1, max_size=12))
     if "run" not in steps and draw(st.booleans()):
         steps.insert(draw(st.integers(0, len(steps))), "run")
-    return {"nodes": nodes, "order": order, "build": draw(st.sampled_from(["source", "api", "api_objects"])), "steps": steps}
+    return {"nodes": nodes, "order": order, "build": draw(st.sampled_from(["source", "api", "api_objects", "api_shared_lists"])), "steps": steps}
 
 
 # ----------------------------------------------------------------------------------- built-in commands
